@@ -7,26 +7,27 @@ D=$1; N=$2; shift 2
 META=$D/meta$N.json; PATCH=$D/patch$N.diff
 DEMO=$D/demo${N}_test.go
 PROP=$(python3 -c "import json;print(json.load(open('$META'))['property'])")
+LBL=$(basename $D)
 DDIR=$(python3 -c "import json;print(json.load(open('$META')).get('demo_dir','ecs'))")
 DTEST=$(python3 -c "import json;print(json.load(open('$META')).get('demo_test',''))")
 WT=/tmp/seedcheck-$$
 G="env GOFLAGS= GOPROXY=off GOSUMDB=off GOTOOLCHAIN=local"
 git -C /repo worktree add -q --detach $WT HEAD || exit 2
 cd $WT
-if ! git apply $PATCH 2>/tmp/apply.err && ! git apply --3way $PATCH 2>>/tmp/apply.err; then echo "RESULT $PROP/$N patch-does-not-apply"; cat /tmp/apply.err | head -5; cd /; git -C /repo worktree remove --force $WT; exit 3; fi
-git diff HEAD > /tmp/seed-rebased-$PROP-$N.diff
+if ! git apply $PATCH 2>/tmp/apply.err && ! git apply --3way $PATCH 2>>/tmp/apply.err; then echo "RESULT $LBL/$N patch-does-not-apply"; cat /tmp/apply.err | head -5; cd /; git -C /repo worktree remove --force $WT; exit 3; fi
+git diff HEAD > /tmp/seed-rebased-$LBL-$N.diff
 suite=$($G go test -vet=off -count=1 ./... 2>&1 | grep -v "^ok\|no test files" | head -5)
 cp $DEMO $WT/$DDIR/zz_seed_demo_test.go
 demo_with=$($G go test -vet=off -count=1 -run "^$DTEST\$" ./$DDIR/ 2>&1 | tail -1)
 git reset -q --hard HEAD
 demo_without=$($G go test -vet=off -count=1 -run "^$DTEST\$" ./$DDIR/ 2>&1 | tail -1)
 cd /; git -C /repo worktree remove --force $WT; rm -rf $WT
-echo "CONFIRM $PROP/$N suite_failures=[${suite}] demo_with_patch=[${demo_with}] demo_without=[${demo_without}]"
+echo "CONFIRM $LBL/$N suite_failures=[${suite}] demo_with_patch=[${demo_with}] demo_without=[${demo_without}]"
 PROPS=${@:-$PROP}
-git -C /repo apply /tmp/seed-rebased-$PROP-$N.diff || { echo "cannot apply to /repo"; exit 3; }
+git -C /repo apply /tmp/seed-rebased-$LBL-$N.diff || { echo "cannot apply to /repo"; exit 3; }
 for P in $PROPS; do
   out=$(cd /verif && VERIF_NO_EVIDENCE=1 ./check $P 2>/dev/null | tail -1); rc=$?
-  echo "CHECK $PROP/$N on $P: $out"
+  echo "CHECK $LBL/$N on $P: $out"
 done
 git -C /repo checkout -- .
 git -C /repo status --short | head -3
